@@ -6,7 +6,8 @@
    real TxMsg/RxMsg and compares validate(), gen_msg() and send_msg().     *)
 EXTENDS TrxdPdu, Json, IOUtils, FiniteSets, SequencesExt, FiniteSetsExt, TLCExt
 
-CONSTANT Pairs       \* TRUE: all pairs of deviations; FALSE: single deviations only
+CONSTANT Pairs,      \* TRUE: all pairs of deviations; FALSE: single deviations only
+         Triples     \* TRUE: additionally all triples of deviations over the reduced value sets Vals3
 
 O(x) == <<x>>
 N == <<>>
@@ -25,6 +26,21 @@ Vals(f) ==
     [] f = "blen"   -> {N, O(0), O(GB - 1), O(GB), O(GB + 1), O(2 * GB), O(3 * GB - 1), O(3 * GB),
                         O(3 * GB + 1), O(4 * GB), O(5 * GB)}
 
+\* reduced sets for triples: unset, just below, lower bound, upper bound, just above
+Vals3(f) ==
+  CASE f = "ver"    -> {N, O(0), O(1), O(2)}
+    [] f = "fn"     -> {N, O(-1), O(0), O(2715647), O(2715648)}
+    [] f = "tn"     -> {N, O(-1), O(0), O(7), O(8)}
+    [] f = "pwr"    -> {N, O(-1), O(0), O(255), O(256)}
+    [] f = "rssi"   -> {N, O(-121), O(-120), O(-47), O(-46)}
+    [] f = "toa"    -> {N, O(-32769), O(-32768), O(32767), O(32768)}
+    [] f = "ci"     -> {N, O(-1281), O(-1280), O(1280), O(1281)}
+    [] f = "tsc"    -> {N, O(-1), O(0), O(7), O(8)}
+    [] f = "tscset" -> {N, O(-1), O(0), O(1), O(2), O(3), O(4)}
+    [] f = "mod"    -> {"GMSK", "8PSK", "notmod"}
+    [] f = "nope"   -> BOOLEAN
+    [] f = "blen"   -> {N, O(GB), O(GB + 1), O(3 * GB), O(5 * GB)}
+
 TxFields == {"ver", "fn", "tn", "pwr", "blen"}
 RxFields == {"ver", "fn", "tn", "rssi", "toa", "ci", "tsc", "tscset", "mod", "nope", "blen"}
 
@@ -40,7 +56,11 @@ RxBases == {Base("rx", 0, "GMSK", FALSE, O(bl)) : bl \in {GB, 3 * GB}}
 Dev1(b, F) == UNION {{[b EXCEPT ![f] = v] : v \in Vals(f)} : f \in F}
 Dev2(b, F) == UNION {Dev1(c, F) : c \in Dev1(b, F)}
 
-Raw == UNION {IF Pairs THEN Dev2(b, TxFields) ELSE Dev1(b, TxFields) : b \in TxBases}
+Dev1r(b, F) == UNION {{[b EXCEPT ![f] = v] : v \in Vals3(f)} : f \in F}
+Dev3(b, F) == UNION {Dev1r(c, F) : c \in UNION {Dev1r(d, F) : d \in Dev1r(b, F)}}
+
+Raw3 == IF Triples THEN UNION {Dev3(b, TxFields) : b \in TxBases} \cup UNION {Dev3(b, RxFields) : b \in RxBases} ELSE {}
+Raw == Raw3 \cup UNION {IF Pairs THEN Dev2(b, TxFields) ELSE Dev1(b, TxFields) : b \in TxBases}
        \cup UNION {IF Pairs THEN Dev2(b, RxFields) ELSE Dev1(b, RxFields) : b \in RxBases}
 
 \* don't-cares of the statement: version 0 has no NOPE indication; the MTS
